@@ -662,7 +662,7 @@ fn run_job(cfg: &Cfg) -> Result<(Vec<i64>, Option<Vec<E>>), String> {
     let mut state = None;
     let mut items = None;
     for _ in 0..n {
-        match rx.recv_timeout(Duration::from_secs(20)) {
+        match rx.recv_timeout(Duration::from_secs(20 * nvh::load_factor() as u64)) {
             Ok(Ok((s, i))) => {
                 if s.is_some() {
                     state = s;
